@@ -345,19 +345,50 @@ def expected_echo(part_disp, m, tup, ctx):
 _CACHE = {}
 
 
-def corpus(tier):
-    """Builds (once per process) the basic corpus; returns (Corpus, {pid: (Contract, tags, e1names)})."""
-    if tier in _CACHE:
-        return _CACHE[tier]
-    progs = programs(tier)
+ASSOC_CONC = {"Self::LeftT": "u32", "Self::MidT": "bool", "Self::RightT": "String"}
+
+
+def assoc_programs():
+    """Contracts implementing an interface with three associated types, its handlers first using them in declaration order
+    (passoc_fwd) and in another order (passoc_rev); arguments are typed by the associated types (ASSOC_CONC gives the contract's choice)."""
+    B = "sylvia::serde::Serialize + sylvia::serde::de::DeserializeOwned + std::fmt::Debug + Clone + PartialEq + sylvia::schemars::JsonSchema"
+    ms = (Method("exec", "set_left", (Arg("l", "Option<Self::LeftT>"), Arg("m", "Self::MidT"))), Method("exec", "set_right", (Arg("r", "Self::RightT"), Arg("l", "Self::LeftT"))),
+          Method("query", "get_left", (Arg("y", "Option<Self::LeftT>"),)), Method("query", "get_both", (Arg("x", "Self::RightT"), Arg("m", "Self::MidT"))),
+          Method("sudo", "poke", (Arg("z", "Self::MidT"), Arg("w", "Self::LeftT"))))
+    out = []
+    for pid, order in (("passoc_fwd", ms), ("passoc_rev", tuple(reversed(ms)))):
+        i0 = Interface(name="Ifg", module="ifg", assoc=(("LeftT", B), ("MidT", B), ("RightT", B)), custom="msg=Empty, query=Empty",
+                       assoc_impl=(("LeftT", "u32"), ("MidT", "bool"), ("RightT", "String")), methods=order)
+        out.append((pid, Contract(methods=(Method("instantiate", "inst", ()), Method("exec", "own", ())), interfaces=(i0,), entry_points=""), {"assoc"}))
+    return out
+
+
+def concrete_method(m):
+    """The handler with the associated types replaced by the contract's choice."""
+    import re as _re
+    args = []
+    for a in m.args:
+        t = a.ty
+        for k, v in ASSOC_CONC.items():
+            t = _re.sub(r"(?<![\w:])%s\b" % _re.escape(k), v, t)
+        args.append(Arg(a.name, t))
+    return Method(m.kind, m.name, tuple(args), qret=m.qret, body=m.body)
+
+
+def corpus(tier, which="basic"):
+    """Builds (once per process) the basic corpus (or the `assoc` mini-corpus); returns (Corpus, {pid: (Contract, tags, e1names)})."""
+    key = tier if which == "basic" else which
+    if key in _CACHE:
+        return _CACHE[key]
+    progs = programs(tier) if which == "basic" else assoc_programs()
     # E1 pass: read invented identifiers (constructors) from the real expansion
     recs = []
     for pid, c, tags in progs:
         recs.append(model.e1_contract_record(pid + ":ct", c, want="items"))
         for i in c.interfaces:
             recs.append(model.e1_interface_record(pid + ":" + i.module, i, want="items"))
-    obs = {o["id"]: o for o in core.e1_run(recs, "basic-" + tier)}
-    cp = e2.Corpus("basic-" + tier)
+    obs = {o["id"]: o for o in core.e1_run(recs, which + "-" + tier)}
+    cp = e2.Corpus(which + "-" + tier)
     info = {}
     for pid, c, tags in progs:
         names = {}
@@ -374,8 +405,8 @@ def corpus(tier):
         info[pid] = (c, tags, names)
     cp.write()
     cp.build()
-    _CACHE[tier] = (cp, info)
-    return _CACHE[tier]
+    _CACHE[key] = (cp, info)
+    return _CACHE[key]
 
 
 def e1_records(tier):
